@@ -559,6 +559,24 @@ impl DMatrix {
 }
 
 
+// =============================================================================== names (rule X1: String / str)
+/// `String` and `str` -> the abstract name type: an immutable sequence of characters. Only the operations below exist;
+/// each is an assumed contract on the std function it stands for. `==` is equality of the character sequences.
+pub struct Name { pub v: Ghost<Seq<char>> }
+impl View for Name { type V = Seq<char>; open spec fn view(&self) -> Seq<char> { self.v@ } }
+impl Clone for Name { #[verifier::external_body] fn clone(&self) -> (r: Self) ensures r == *self { unimplemented!() } }
+impl vstd::std_specs::cmp::PartialEqSpecImpl for Name {
+  open spec fn obeys_eq_spec() -> bool { true }
+  open spec fn eq_spec(&self, other: &Name) -> bool { self@ == other@ }
+}
+impl PartialEq for Name { #[verifier::external_body] fn eq(&self, other: &Name) -> (r: bool) { unimplemented!() } }
+/// `<&str as Into<String>>::into` / `String::from(&str)` / `to_string()`: the same characters
+#[verifier::external_body]
+pub fn __vp_name_from_ref(s: &Name) -> (r: Name) ensures r == *s { unimplemented!() }
+/// `AsRef<str>::as_ref` on a string type: the same characters
+#[verifier::external_body]
+pub fn __vp_as_ref(s: &Name) -> (r: &Name) ensures r == s { unimplemented!() }
+
 // =============================================================================== model builder support (unit mbuilder)
 /// `BasisFunction<ScalarType, ArgList>` (src/basis_function/mod.rs): a user callable with ARGUMENT_COUNT scalar arguments.
 /// Its implementations for arities 1..10 are generated by macro_rules! (never seen by Verus): `eval` panics unless
@@ -589,15 +607,17 @@ impl BaseFunc {
 }
 /// rule X13: `names.into_iter().map(|s| s.as_ref().to_string()).collect()`: the same names, as Strings, in order
 #[verifier::external_body]
-pub fn __vp_to_strings(names: Vec<String>) -> (r: Vec<String>) ensures r@ == names@ { unimplemented!() }
+pub fn __vp_to_strings(names: Vec<Name>) -> (r: Vec<Name>) ensures r@ == names@ { unimplemented!() }
 /// rule X13: `names.iter().cloned().map(|n| n.into()).collect()`
 #[verifier::external_body]
-pub fn __vp_clone_strings(names: &[String]) -> (r: Vec<String>) ensures r@ == names@ { unimplemented!() }
-/// `StrType: Into<String>` instantiated at String: the identity
-pub fn __vp_into_string(s: String) -> (r: String) ensures r@ == s@ { s }
+pub fn __vp_clone_strings(names: &[Name]) -> (r: Vec<Name>) ensures r@ == names@ { unimplemented!() }
+/// `StrType: Into<Name>` instantiated at Name: the identity
+pub fn __vp_into_string(s: Name) -> (r: Name) ensures r@ == s@ { s }
 /// `s.contains(<char>)`
 #[verifier::external_body]
-pub fn __vp_str_contains_char(s: &String, c: char) -> (r: bool) ensures r == s@.contains(c) { unimplemented!() }
+pub fn __vp_str_contains_char(s: &Name, c: char) -> (r: bool) ensures r == s@.contains(c) { unimplemented!() }
+/// `[T]::to_vec`: the clones of the elements, in order (a clone of a Name is an equal Name)
+pub assume_specification<T: Clone> [<[T]>::to_vec] (s: &[T]) -> (r: Vec<T>) ensures r@ == s@;
 pub assume_specification<T: PartialEq> [<[T]>::contains] (s: &[T], x: &T) -> (r: bool)
   ensures r == exists |i: int| 0 <= i < s@.len() && #[trigger] s@[i] == *x;
 pub assume_specification<T, E> [core::result::Result::<T, E>::as_mut] (r: &mut core::result::Result<T, E>) -> (o: core::result::Result<&mut T, &mut E>)
@@ -609,31 +629,31 @@ pub assume_specification<T, E> [core::result::Result::<T, E>::as_mut] (r: &mut c
 // =============================================================================== varpro: model builder vocabulary and its two assumed leaves
 /// src/model/builder/error.rs (variant names checked against /repo by the contracts of unit `model`)
 pub enum ModelBuildError {
-  DuplicateParameterNames { function_parameters: Vec<String> },
+  DuplicateParameterNames { function_parameters: Vec<Name> },
   EmptyParameters,
-  FunctionParameterNotInModel { function_parameter: String },
-  InvalidDerivative { parameter: String, function_parameters: Vec<String> },
-  DuplicateDerivative { parameter: String },
-  MissingDerivative { missing_parameter: String, function_parameters: Vec<String> },
+  FunctionParameterNotInModel { function_parameter: Name },
+  InvalidDerivative { parameter: Name, function_parameters: Vec<Name> },
+  DuplicateDerivative { parameter: Name },
+  MissingDerivative { missing_parameter: Name, function_parameters: Vec<Name> },
   EmptyModel,
-  UnusedParameter { parameter: String },
+  UnusedParameter { parameter: Name },
   IncorrectParameterCount { actual: usize, expected: usize },
-  CommaInParameterNameNotAllowed { param_name: String },
+  CommaInParameterNameNotAllowed { param_name: Name },
   MissingX,
   MissingInitialParameters,
   IllegalCallToPartialDeriv,
 }
 pub open spec fn has_comma(s: Seq<char>) -> bool { s.contains(',') }
-pub open spec fn no_dups(ns: Seq<String>) -> bool { forall |i: int, j: int| 0 <= i < j < ns.len() ==> (#[trigger] ns[i])@ != (#[trigger] ns[j])@ }
+pub open spec fn no_dups(ns: Seq<Name>) -> bool { forall |i: int, j: int| 0 <= i < j < ns.len() ==> (#[trigger] ns[i])@ != (#[trigger] ns[j])@ }
 /// "non-empty, unique, comma-free"
-pub open spec fn names_ok(ns: Seq<String>) -> bool {
+pub open spec fn names_ok(ns: Seq<Name>) -> bool {
   &&& ns.len() > 0
   &&& forall |i: int| 0 <= i < ns.len() ==> !has_comma(#[trigger] ns[i]@)
   &&& no_dups(ns)
 }
-pub open spec fn name_in(ns: Seq<String>, s: Seq<char>) -> bool { exists |i: int| 0 <= i < ns.len() && #[trigger] ns[i]@ == s }
+pub open spec fn name_in(ns: Seq<Name>, s: Seq<char>) -> bool { exists |i: int| 0 <= i < ns.len() && #[trigger] ns[i]@ == s }
 /// `idx` is the index mapping of `subset` into `full`: the position of each subset name in the full list
-pub open spec fn is_index_mapping(idx: Seq<usize>, full: Seq<String>, subset: Seq<String>) -> bool {
+pub open spec fn is_index_mapping(idx: Seq<usize>, full: Seq<Name>, subset: Seq<Name>) -> bool {
   &&& idx.len() == subset.len()
   &&& forall |i: int| 0 <= i < subset.len() ==> (#[trigger] idx[i]) < full.len() && full[idx[i] as int]@ == subset[i]@
 }
@@ -641,13 +661,13 @@ pub open spec fn is_index_mapping(idx: Seq<usize>, full: Seq<String>, subset: Se
 pub open spec fn routed(p: Seq<real>, idx: Seq<usize>) -> Seq<real> { Seq::new(idx.len(), |i: int| p[idx[i] as int]) }
 
 /// ASSUMED LEAF src/model/detail.rs `has_only_unique_elements` (HashSet + `all` with a stateful closure: outside the Verus
-/// dialect; Kani timed out on String + SipHash, so there is no bounded stand-in): true iff no two elements are equal
+/// dialect; Kani timed out on Name + SipHash, so there is no bounded stand-in): true iff no two elements are equal
 #[verifier::external_body]
-pub fn has_only_unique_elements(names: &[String]) -> (r: bool) ensures r == no_dups(names@) { unimplemented!() }
+pub fn has_only_unique_elements(names: &[Name]) -> (r: bool) ensures r == no_dups(names@) { unimplemented!() }
 /// ASSUMED LEAF src/model/detail.rs `create_index_mapping` (map/position/collect into Result): the position of every subset
 /// element in `full`; Err(FunctionParameterNotInModel) iff some subset element is missing
 #[verifier::external_body]
-pub fn create_index_mapping(full: &[String], subset: &[String]) -> (r: Result<Vec<usize>, ModelBuildError>)
+pub fn create_index_mapping(full: &[Name], subset: &[Name]) -> (r: Result<Vec<usize>, ModelBuildError>)
   ensures
     r matches Ok(idx) ==> is_index_mapping(idx@, full@, subset@),
     r.is_err() <==> exists |i: int| 0 <= i < subset@.len() && !name_in(full@, #[trigger] subset@[i]@),
